@@ -15,7 +15,7 @@ OWNER = [("NoLeak", "C08"), ("PatternDrops", "C08"),
          ("Consistent", "C09"), ("Injective", "C09"), ("ReportExact", "C09"), ("NoPhantom", "C09"),
          ("ProvenanceMonotone", "C10"), ("BlankCollapses", "C10"), ("OneOrder", "C10"), ("Deterministic", "C10")]
 ALLK = ["text", "ip", "loop", "short", "fqdn", "dom", "mac", "nullmac", "kw", "pat", "pw"]
-ALLD = ["edge", "space", "punct", "word", "same"]
+ALLD = ["edge", "space", "punct", "colon", "dash", "dotnum", "alpha", "digit"]
 
 
 def owner(clause):
@@ -49,6 +49,7 @@ def cfg_text(c, emit=True, invs=INVS, prop=True):
              "  KwSets = %s" % nsets(c.get("kws", [[1]])), "  PatSets = %s" % nsets(c.get("pats", [[]])),
              "  RegexSet = %s" % bset(c.get("regex", [False])), "  SysDomSet = %s" % bset(c.get("sysdom", [True])),
              "  NoRedSet = %s" % bset(c.get("nored", [False])), "  NoObfSets = %s" % ssets(c.get("noobf", [[]])),
+             "  WidthSet = %s" % bset(c.get("width", [False])),
              "  FamSet = %s" % sset(c.get("fam", ["plain"])),
              "  AllowBlank = %s" % ("TRUE" if c.get("blank") else "FALSE"),
              "  Runs = %d" % c.get("runs", 1),
@@ -75,20 +76,26 @@ CONFIGS = {
     # two tokens on one line (repeats, mixed kinds, prefix addresses), plain and regex patterns
     "pair": dict(dels=["space", "punct"], tok=2, nip=2, pats=[[], [1]], regex=[False, True],
                  fam=["plain", "prefix"]),
-    "pairx": dict(dels=["edge", "word", "same"], tok=2, kinds=["text", "ip", "short", "dom", "mac", "kw", "pw"],
+    "pairx": dict(dels=["edge", "alpha", "dotnum"], tok=2, kinds=["text", "ip", "short", "dom", "mac", "kw", "pw"],
                   pats=[[]]),
+    "pairc": dict(dels=["colon", "dash", "digit"], tok=2, kinds=["text", "ip", "dom", "mac"], pats=[[]]),
+    # fixed-width mode (netstat): repeated addresses on one line, address:port
+    "pairw": dict(dels=["space", "colon"], tok=2, kinds=["text", "ip", "loop", "fqdn"], nip=2, pats=[[]], width=[True],
+                  fam=["plain", "prefix"]),
     # thorough: three tokens
     "triple": dict(dels=["space"], tok=3, nip=2, nkw=2, kws=[[1, 2]], pats=[[1]], regex=[False, True],
                    fam=["plain", "prefix"]),
     "triplep": dict(dels=["punct"], tok=3, kinds=["text", "ip", "fqdn", "dom", "mac", "kw", "pw"], pats=[[]]),
     # all application orders on the model (no emission: the order is not an input of the code)
-    "orders": dict(dels=["edge", "word"], tok=1, allorders=True, pats=[[1]], noobf=EXEMPT,
+    "orders": dict(dels=["edge", "alpha"], tok=1, allorders=True, pats=[[1]], noobf=EXEMPT,
                    fam=["plain", "kwdom", "pwip"]),
     # C09 ---------------------------------------------------------------------------------
     "hist2": dict(kinds=["ip", "short", "fqdn", "dom", "mac"], nip=2, ndom=2, nmac=2, tok=2, lines=2, specs=2, tot=2,
                   kws=[[]], fam=["plain", "collide", "suffix", "prefix"]),
     "hist2x": dict(kinds=["ip", "fqdn", "dom", "kw", "text"], nip=1, ndom=2, nmac=1, tok=2, lines=2, specs=2, tot=2,
                    kws=[[1]], noobf=[[], ["ip", "hostname"]], fam=["plain"], sysdom=[True, False]),
+    # fixed-width mode: the same address twice on one line / on two lines
+    "histw": dict(kinds=["ip"], nip=2, tok=2, lines=2, specs=2, tot=2, kws=[[]], width=[True], fam=["plain", "prefix"]),
     "hist3ip": dict(kinds=["ip"], nip=3, tok=2, lines=3, specs=3, tot=3, kws=[[]], fam=["plain", "collide", "prefix"]),
     "hist3host": dict(kinds=["short", "fqdn", "dom"], ndom=2, tok=2, lines=3, specs=3, tot=3, kws=[[]],
                       fam=["plain", "collide", "suffix"]),
@@ -104,6 +111,9 @@ CONFIGS = {
     # two specs with different per-spec exemptions through one cleaner: the order must not change between specs
     "runs2sp": dict(kinds=["text", "kw", "fqdn", "pw", "ip"], tok=1, lines=1, specs=2, tot=2,
                     noobf=[[], ["mac"], ["ip", "keyword"]], fam=["plain", "kwdom"], runs=2),
+    # nothing to apply: no patterns, no keywords, every enabled obfuscator exempted (the machine-id spec)
+    "runsnone": dict(kinds=["text", "ip", "fqdn"], tok=1, lines=2, blank=True, kws=[[]], pats=[[]], nored=[False, True],
+                     noobf=[["hostname", "ip", "mac", "password"]], runs=2),
     # every order, two runs: OneOrder / Deterministic on the model
     "ordruns": dict(kinds=["kw", "fqdn", "pw", "pat"], tok=1, lines=1, blank=True, pats=[[1]],
                     fam=["plain", "kwdom", "pwip"], runs=2, allorders=True),
@@ -113,15 +123,15 @@ CONFIGS = {
 }
 
 PLAN = {
-    "C08": dict(quick=dict(emit=["tok1", "switch1", "pair", "pairx"], model=["orders"], cap=8000, nconc=3,
+    "C08": dict(quick=dict(emit=["tok1", "switch1", "pair", "pairx", "pairc", "pairw"], model=["orders"], cap=8000, nconc=3,
                            paths=["content"]),
-                thorough=dict(emit=["tok1", "switch1", "pair", "pairx", "triple", "triplep"], model=["orders"],
+                thorough=dict(emit=["tok1", "switch1", "pair", "pairx", "pairc", "pairw", "triple", "triplep"], model=["orders"],
                               cap=45000, nconc=6, paths=["content", "content", "file", "provider", "fileprovider"])),
-    "C09": dict(quick=dict(emit=["hist2", "hist2x"], model=[], cap=8000, nconc=2, paths=["content"]),
-                thorough=dict(emit=["hist2", "hist2x", "hist3ip", "hist3host", "hist3mac"], model=[], cap=50000,
+    "C09": dict(quick=dict(emit=["hist2", "hist2x", "histw"], model=[], cap=8000, nconc=2, paths=["content"], long=80),
+                thorough=dict(emit=["hist2", "hist2x", "histw", "hist3ip", "hist3host", "hist3mac"], model=[], cap=50000, long=600,
                               nconc=3, paths=["content", "content", "provider", "file"])),
-    "C10": dict(quick=dict(emit=["runs3", "runs2sp"], model=["ordruns"], cap=700, seeds=16),
-                thorough=dict(emit=["runs3", "runs2sp", "runs2x2", "runs4"], model=["ordruns"], cap=5000, seeds=64)),
+    "C10": dict(quick=dict(emit=["runs3", "runs2sp", "runsnone"], model=["ordruns"], cap=700, seeds=16),
+                thorough=dict(emit=["runs3", "runs2sp", "runsnone", "runs2x2", "runs4"], model=["ordruns"], cap=5000, seeds=64)),
 }
 
 ASSUMPTIONS = [
@@ -207,15 +217,67 @@ ALWAYS = ("tok1",)      # replayed completely: every kind x every pair of delimi
 
 
 def sample_cases(raw, cap, rng):
+    """Exhaustive model, VERIF_SEED-determined replay sample when over the cap: the ALWAYS configurations are
+    replayed completely, the rest of the cap is shared equally by the other configurations (a small configuration
+    is replayed completely, what it does not use goes to the bigger ones)."""
     emitted = len(raw)
     rng.shuffle(raw)
-    raw.sort(key=lambda x: x[0] not in ALWAYS)        # stable: the ALWAYS configurations first
+    by = {}
+    for x in raw:
+        by.setdefault(x[0], []).append(x)
+    take = dict((n, len(xs)) for n, xs in by.items() if n in ALWAYS)
+    rest = sorted((n for n in by if n not in ALWAYS), key=lambda n: len(by[n]))
+    left = max(0, cap - sum(take.values()))
+    for i, n in enumerate(rest):
+        share = left // (len(rest) - i)
+        take[n] = min(len(by[n]), share)
+        left -= take[n]
     cases = []
-    for name, i, line in raw[:cap]:
-        c = lib.parse_case(line)
-        c["id"] = "%s#%d" % (name, i)
-        cases.append(c)
+    for n in sorted(by):
+        for name, i, line in by[n][:take[n]]:
+            c = lib.parse_case(line)
+            c["id"] = "%s#%d" % (name, i)
+            cases.append(c)
+    rng.shuffle(cases)
     return cases, emitted
+
+
+def long_cases(rng, n):
+    """Seeded histories beyond TLC's exhaustive bound (code -> spec direction only): 12-20 distinct originals
+    of one kind (or mixed) through ONE cleaner instance, every original recurring."""
+    out = []
+    for i in range(n):
+        N = rng.randint(12, 20)
+        kinds = rng.choice([["ip"], ["ip"], ["dom"], ["mac"], ["kw"], ["ip", "dom", "mac", "kw"]])
+        seq = []
+        for k in kinds:
+            ids = list(range(1, N + 1))
+            rng.shuffle(ids)
+            seen = []
+            for x in ids:
+                seq.append((k, x))
+                seen.append(x)
+                while rng.random() < 0.35:
+                    seq.append((k, rng.choice(seen)))
+        if len(kinds) > 1:
+            rng.shuffle(seq)
+        for _ in range(rng.randint(0, 4)):
+            seq.insert(rng.randrange(len(seq) + 1), (rng.choice(["short", "fqdn", "text"]), 0))
+        toks = [dict(k=k, id=x, l=rng.choice(["space", "punct"]), r=rng.choice(["space", "punct"])) for k, x in seq]
+        lines = []
+        while toks:
+            m = rng.randint(1, 3)
+            lines.append(toks[:m])
+            toks = toks[m:]
+        content = []
+        while lines:
+            m = rng.randint(3, 8)
+            content.append(dict(sp=dict(nored=False, noobf=[], width=False), lines=lines[:m]))
+            lines = lines[m:]
+        cf = dict(obf=True, host=True, mac=True, kws=list(range(1, N + 1)) if "kw" in kinds else [], pats=[],
+                  regex=False, sysdom=True, fam="plain")
+        out.append(dict(id="long#%d" % i, cf=cf, ord=[], content=content))
+    return out
 
 
 def ckey(c):
@@ -298,12 +360,14 @@ def run(prop, tier):
     models, raw = run_models(prop, tier, plan)
     cases, emitted = sample_cases(raw, plan["cap"], rng)
     del raw
+    if plan.get("long"):
+        cases += long_cases(rng, plan["long"])
     print("timing: models %.1fs, %d cases emitted, %d replayed" % (time.time() - t0, emitted, len(cases)))
     t1 = time.time()
     tmp = lib.subdir("cleaner-tmp")
     extra = {}
     if prop in ("C08", "C09"):
-        payloads = [dict(mode="lines", cases=ch, nconc=plan["nconc"], seed=lib.seed(), paths=plan["paths"],
+        payloads = [dict(mode="lines", prop=prop, cases=ch, nconc=plan["nconc"], seed=lib.seed(), paths=plan["paths"],
                          tmp=os.path.join(tmp, "w%d" % i), facts=(prop == "C09"))
                     for i, ch in enumerate(lib.chunks(cases, lib.NCPU))]
         outs = lib.run_driver_parallel("drive_cleaner.py", payloads, hashseeds=list(range(0, 64)), timeout=2400)
@@ -341,7 +405,7 @@ def run(prop, tier):
                                       stored=s["stored"], raised=s["raised"]))
                 events.append(dict(ev="run", hs=k, specs=specs))
             events.append(dict(ev="endruns"))
-            traces.append(dict(id=c["id"] + "/runs", mode="runs", cf=c["cf"], special=[], content=c["content"],
+            traces.append(dict(id=c["id"] + "/runs", mode="runs", prop=prop, cf=c["cf"], special=[], content=c["content"],
                                events=events,
                                concrete=dict(input=outs[0]["runs"][c["id"]]["specs"][0]["input"],
                                              outputs=sorted(set(json.dumps(o["runs"][c["id"]]["specs"][0]["texts"])
@@ -428,7 +492,7 @@ def replay(prop, path):
     print("recorded: %s\n  %s" % (rec["signature"], rec["what"][:800]))
     if rp["trace"]["mode"] == "lines":
         _, j, pth = tid.rsplit("/", 2)
-        out = lib.run_driver("drive_cleaner.py", dict(mode="lines", cases=[case], nconc=int(j) + 1, seed=seed,
+        out = lib.run_driver("drive_cleaner.py", dict(mode="lines", prop=prop, cases=[case], nconc=int(j) + 1, seed=seed,
                                                       paths=[pth], tmp=tmp, facts=(prop == "C09")))
         traces = [t for t in out["traces"] if t["id"] == tid]
     else:
@@ -444,7 +508,7 @@ def replay(prop, path):
                      for s in o["runs"][case["id"]]["specs"]]
             events.append(dict(ev="run", hs=k, specs=specs))
         events.append(dict(ev="endruns"))
-        traces = [dict(id=tid, mode="runs", cf=case["cf"], special=[], content=case["content"], events=events)]
+        traces = [dict(id=tid, mode="runs", prop=prop, cf=case["cf"], special=[], content=case["content"], events=events)]
     val = lib.validate_traces("CleanerTrace", "CleanerTrace.cfg", traces, jobs=1)
     if val["rejected"]:
         for r in val["rejected"]:
